@@ -411,6 +411,36 @@ def run_seed(machine: Machine, seed: int, avoid=(),
 MACHINE_FACTORY = None      # set by simphot.runner (key -> Machine)
 
 
+class SoftTimeout(BaseException):
+    """A run used up its soft wall-clock allowance (SIGALRM).  It is
+    abandoned and counted as SLOW: how long the library takes is not what the
+    checks decide, and one pathological scene must not take the batch down.
+    (BaseException: neither call() nor the code under test swallows it.)"""
+
+
+def run_seed_soft(machine, seed, avoid, ops_scale, soft_s):
+    """run_seed under a soft timeout; the hard one (faulthandler, process
+    exit) stays armed around it for loops that never return to bytecode."""
+    import signal
+
+    def on_alarm(signum, frame):
+        raise SoftTimeout()
+    old = signal.signal(signal.SIGALRM, on_alarm)
+    signal.alarm(max(1, int(soft_s)))
+    try:
+        return run_seed(machine, seed, avoid, ops_scale)
+    except SoftTimeout:
+        plan = {'machine': machine.name, 'property': machine.pid,
+                'seed': seed, 'cfg': {}, 'scene': {}, 'ops': []}
+        res = _mk_result('SLOW', plan, Stats(), Trace(),
+                         err=f'run of seed {seed} abandoned after '
+                             f'{int(soft_s)} s of wall clock')
+        return plan, res
+    finally:
+        signal.alarm(0)
+        signal.signal(signal.SIGALRM, old)
+
+
 def _write_frame(fd, obj):
     import pickle
     import struct
@@ -765,7 +795,8 @@ def run_chunk(machine: Machine, base_seed: int, indices, avoid_frac_known,
                 try:
                     os.close(r)
                     faulthandler.dump_traceback_later(run_timeout, exit=True)
-                    plan, res = run_seed(machine, seed, avoid, ops_scale)
+                    plan, res = run_seed_soft(machine, seed, avoid,
+                                              ops_scale, run_timeout / 3)
                     faulthandler.cancel_dump_traceback_later()
                     res['plan'] = plan
                     with os.fdopen(w, 'wb') as fh:
@@ -791,7 +822,8 @@ def run_chunk(machine: Machine, base_seed: int, indices, avoid_frac_known,
                                 '(per-run timeout or crash)'}
         else:
             faulthandler.dump_traceback_later(run_timeout, exit=True)
-            plan, res = run_seed(machine, seed, avoid, ops_scale)
+            plan, res = run_seed_soft(machine, seed, avoid, ops_scale,
+                                      run_timeout / 3)
             faulthandler.cancel_dump_traceback_later()
             res['plan'] = plan
         res['index'] = i
